@@ -175,6 +175,13 @@ def install(w):
     def _to(ex, st, obj, node):
         return arg_get(ex, st, obj, "to", exp.DataType)
 
+    def sf(name):
+        def deco(f):
+            w.specfuns[name] = SpecFun(name, f)
+            return f
+
+        return deco
+
     # ------------------------------------------------------------------ tree searches
     ARR = z3.ArraySort(I, V)
     DM = z3.ArraySort(I, z3.ArraySort(V, V))
@@ -388,6 +395,74 @@ def install(w):
         return obj
 
     H["sqlglot.parse_one"] = parse_one
+
+    TX_N, TX_NAME = "$tx_n", "$tx_name"
+    w.ghost_sorts[TX_N] = I
+    w.ghost_sorts[TX_NAME] = z3.ArraySort(I, S)
+    w.ghost_sorts["$tx_a1"] = z3.ArraySort(I, V)
+    w.ghost_sorts["$tx_a2"] = z3.ArraySort(I, V)
+
+    def gh(st, name):
+        g = st.ghost.get(name)
+        if g is None:
+            g = z3.Const(f"G0_{name}", w.ghost_sorts[name])
+            st.ghost[name] = g
+        return g
+
+    def m_transform(ex, st, args, kw, node):
+        """Expression.transform(fn, **kw): a new tree (A-SQLGLOT 2: fn applied to every node of a copy, pre-order, not
+        descending into replaced nodes).  The ghost pipeline records which repo function was applied with which extra
+        arguments (needed for 'first transform' / ordering / 'fills in conn.database' obligations)."""
+        import ast as _ast
+
+        from pyvc.exec import Closure
+
+        ex.trusted_used.add(A)
+        recv, fn = args[0], args[1]
+        ex.as_ref(st, recv, node)
+        name = None
+        extra = []
+        if isinstance(fn.py, Closure) and isinstance(fn.py.node, _ast.Lambda) and isinstance(fn.py.node.body, _ast.Call):
+            call = fn.py.node.body
+            callee = ex.ev(call.func, st)
+            name = getattr(callee.py, "__module__", "?") + "." + getattr(callee.py, "__qualname__", "?")
+            extra = [ex.ev(a, st) for a in call.args[1:]] + [ex.ev(k.value, st) for k in call.keywords]
+        elif fn.py is not None and hasattr(fn.py, "__qualname__"):
+            name = fn.py.__module__ + "." + fn.py.__qualname__
+            extra = list(kw.values())
+        else:
+            raise Unsupported("transform() with an unrecognised callable", node)
+        n = gh(st, TX_N)
+        st.ghost[TX_NAME] = z3.Store(gh(st, TX_NAME), n, z3.StringVal(name))
+        st.ghost["$tx_a1"] = z3.Store(gh(st, "$tx_a1"), n, extra[0].t if len(extra) > 0 else NONE)
+        st.ghost["$tx_a2"] = z3.Store(gh(st, "$tx_a2"), n, extra[1].t if len(extra) > 1 else NONE)
+        st.ghost[TX_N] = n + 1
+        obj = ex.new_object(st, None, E)
+        nid = V.rid(obj.t)
+        st.assume(w.classes.isa(CLS(nid), E))
+        d = ex.new_object(st, dict, DictT(str, None))
+        st.heap["args"] = z3.Store(st.arr("args"), nid, d.t)
+        st.heap["parent"] = z3.Store(st.arr("parent"), nid, NONE)
+        ex.bump_alloc(st)
+        return obj
+
+    H["sqlglot.expressions.Expression.transform"] = m_transform
+
+    @sf("tx_len")
+    def _tx_len(ex, st, args):
+        return Val(mki(gh(st, TX_N)), int)
+
+    @sf("tx_name")
+    def _tx_name(ex, st, args):
+        return Val(mks(gh(st, TX_NAME)[ex.as_int(st, args[0])]), str)
+
+    @sf("tx_arg1")
+    def _tx_arg1(ex, st, args):
+        return Val(gh(st, "$tx_a1")[ex.as_int(st, args[0])], None)
+
+    @sf("tx_arg2")
+    def _tx_arg2(ex, st, args):
+        return Val(gh(st, "$tx_a2")[ex.as_int(st, args[0])], None)
     w.classes.add_tree(sqlglot.errors.SqlglotError) if hasattr(sqlglot.errors, "SqlglotError") else None
 
     # spec functions over nodes ---------------------------------------------------------------------
@@ -424,6 +499,10 @@ def install(w):
         # allocated during this call: id at or above the allocation pointer of the pre-state
         pre = ex.spec.old if ex.spec is not None else st
         return Val(mkb(z3.And(V.is_r(args[0].t), V.rid(args[0].t) >= ex.alloc_term(pre))), bool)
+
+    @sf("find_ident_dfs")
+    def _find_ident_dfs(ex, st, args):
+        return find_like("find", ex, st, args[0], [exp.Identifier], False)
 
     @sf("find_table")
     def _find_table(ex, st, args):
